@@ -288,7 +288,12 @@ public:
     template<typename T>
     future<T> run(async<T> &fn) {
         return [&](auto promise) {
-            resume(fn.start(promise));
+            //the closure owns the (not yet started) coroutine and the promise. If it is
+            //destroyed without being called (the pool is stopped), the coroutine frame is
+            //destroyed and the promise dropped, so the future reports a broken promise
+            run_detached([fn = std::move(fn), promise = std::move(promise)]() mutable {
+                fn.start(promise);
+            });
         };
     }
 
